@@ -84,6 +84,9 @@ _add(PF("gf255s", P255S, 4, "gf255", GF255_CAPS, 32, raw_redundant=True))
 # encode/decode are exercised on them.
 _add(PF("gf255_mq31", (1 << 255) - 31, 4, "gf255", ("mul_small", "enc32", "decode32", "ringonly", "noreduce"), 32, raw_redundant=True))
 _add(PF("gf255_mq32765", (1 << 255) - 32765, 4, "gf255", ("mul_small", "enc32", "decode32", "ringonly", "noreduce"), 32, raw_redundant=True))
+# MQ between the thresholds the backends use to pick their code paths (3827 / 4095 / 7656): both prime
+_add(PF("gf255_mq4111", (1 << 255) - 4111, 4, "gf255", ("mul_small", "enc32", "decode32", "ringonly", "noreduce"), 32, raw_redundant=True))
+_add(PF("gf255_mq7549", (1 << 255) - 7549, 4, "gf255", ("mul_small", "enc32", "decode32", "ringonly", "noreduce"), 32, raw_redundant=True))
 _add(PF("gfp256", PP256, 4, "modint", MODINT_CAPS, 32))
 _add(PF("gfsecp256k1", PSECP, 4, "secp", ("mul3", "mul21", "mul_u16", "enc32", "decode32", "sqrt", "legendre"), 32, raw_redundant=True))
 _add(PF("gf448", P448, 7, "gf448", ("mul_small", "sqrt", "sqrt_ext", "legendre"), 56, raw_redundant=True))
